@@ -68,6 +68,14 @@ func (ms *metaStore) metaPath(bucket string, object string) metaPath {
 	object = strings.Replace(object, "/", "_", -1)
 	object = strings.Replace(object, "\\", "_", -1)
 
+	// The record is a single file: keep its name (flattened key + '-' + 32 hex
+	// digits) within the 255 bytes a file name may have. The hash of the full
+	// key keeps truncated names unique.
+	const maxFlatName = 255 - 1 - 32
+	if len(object) > maxFlatName {
+		object = object[:maxFlatName]
+	}
+
 	return metaPath{bucket, object + "-" + hex.EncodeToString(h.Sum(nil))}
 }
 
